@@ -97,7 +97,8 @@ def build_output(T, rng, op, full):
         elif loc == "OLStream":
             if not present:
                 vals.append((loc, ("b", b""))); continue
-            n = rng.choice([0, 1, 100, 5000])
+            # the all-members case always streams several frames of many bytes (a frame count is then never a byte count)
+            n = 5000 if full else rng.choice([0, 1, 100, 5000])
             body = bytes((i * 13 + 5) % 256 for i in range(n))
             fs = [body[i:i + 1000] for i in range(0, len(body), 1000)]
             desc["body"] = dict(frames=[f.hex() for f in fs]); vals.append((loc, ("b", body)))
@@ -163,6 +164,11 @@ def reference_client(vals, resp, extra, status_exp):
         elif v is not None and v[0] == "b":
             if body != v[1]:
                 return "the body differs (%d bytes expected, %d received)" % (len(v[1]), len(body))
+    # the length the transport is told (Content-Length is derived from it) must be the length of the body
+    sh = resp.get("size_hint")
+    if sh and not resp.get("body_error"):
+        if sh[0] > len(body) or (sh[1] is not None and sh[1] != len(body)):
+            return "the body announces a length of %s..%s bytes but carries %d" % (sh[0], sh[1], len(body))
     for k, x in extra:
         if (k, x) not in hs:
             return "extra header %s: %s attached by the backend is missing" % (k, x)
@@ -184,10 +190,13 @@ def run(ctx):
     ops = sorted(o for o in T.code if o not in SKIP)
     per = 2 if ctx.quick else 20
     built = []
-    for op in ops:
+    for oi, op in enumerate(ops):
         for i in range(per):
             desc, vals, need = build_output(T, rng, op, full=(i == 0))
-            extra = rng.choice(EXTRA)
+            # extra headers rotate over the operations; the all-members case of the operations with their own header-merging code
+            # (GetObject) always carries a repeated header name
+            extra = EXTRA[3] if (i == 0 and op in ("GetObject", "HeadObject")) else EXTRA[(oi + i) % len(EXTRA)]
+            rng.choice(EXTRA)
             override = rng.choice([None, None, None, 202, 299]) if op != "CompleteMultipartUpload" else None
             built.append(dict(op=op, desc=desc, vals=vals, need=need, extra=extra, override=override, delay=0 if op == "CompleteMultipartUpload" else None))
     # keep-alive timings
